@@ -35,7 +35,11 @@ PROBES = [
     "*e* **s** <b>h</b>\n\n<div>\nx\n</div>\n",
 ]
 RULE_NAMES = ["balance_pairs", "fragments_join", "table", "strikethrough", "emphasis", "link", "image", "list", "blockquote", "fence", "code", "reference", "backticks", "heading", "smartquotes", "replacements", "entity", "escape", "html_inline", "html_block", "autolink", "hr", "lheading", "newline"]
-EXC_KINDS = ["Exception", "KeyError", "IndexError", "BaseException", "StopIteration", "RecursionError"]
+EXC_KINDS = [
+    "Exception", "KeyError", "IndexError", "BaseException", "StopIteration", "RecursionError", "TypeError", "ValueError", "AttributeError",
+    "AssertionError", "ModuleNotFoundError", "NotImplementedError", "ZeroDivisionError", "LookupError", "UnicodeError", "GeneratorExit",
+    "StopAsyncIteration", "OSError", "MemoryError", "NameError", "ImportError", "RuntimeError",
+]
 
 
 class InjectedError(Exception):
@@ -57,6 +61,10 @@ def make_exc(kind: str):
         return StopIteration("injected")
     if kind == "RecursionError":
         return RecursionError("injected")
+    if kind != "Exception":
+        import builtins
+
+        return getattr(builtins, kind)("injected")
     return InjectedError("injected")
 
 
@@ -107,7 +115,10 @@ def _case(draw):
             # (all of them with probability 1/2: a post-processing rule alone shows nothing without its companions)
             chosen = list(names) if d.chance(0.7) else [d.pick(names) for _ in range(d.i(1, 2))]
             b = [["enable", chosen], ["parse", d.pick(PROBES)]] + b
-        return {"kind": "reset", "cfg": gen.config_d(d, allow_linkify=False), "pre": pre, "body": b, "exit": d.pick(["normal", "raise", "raise"]), "exc": d.pick(EXC_KINDS)}
+        # the context manager object may be created first and entered later, with rule switches in between: what is
+        # restored is what was in force on entry
+        between = [[d.pick(["enable", "disable"]), [d.pick(RULE_NAMES) for _ in range(d.i(1, 2))]] for _ in range(d.i(1, 2))] if d.chance(0.3) else []
+        return {"kind": "reset", "cfg": gen.config_d(d, allow_linkify=False), "pre": pre, "body": b, "exit": d.pick(["normal", "raise", "raise"]), "exc": d.pick(EXC_KINDS), "between": between}
     k = d.i(0, 9)
     if k < 5:
         src = d.pick(PROBES) if d.chance(0.3) else gen.block_doc_d(d, tabs=False, maxdepth=2, perturbed=False)
@@ -268,8 +279,15 @@ def check_reset(case, res: Res) -> None:
         for chain, kind, name in case.get("pre") or []:
             ruler = m.inline.ruler2 if chain == "inline2" else m[chain].ruler
             getattr(ruler, kind)(list(name) if isinstance(name, list) else [name], True)
+    between = case.get("between") or []
+    guard = md.reset_rules() if between else None
+    for m in (md, control):
+        for kind, names in between:
+            getattr(m, kind)(list(names), True)
     entry_state = snapshot(md)
     raised_exit = [False]
+    if between:
+        res.cls.append("reset_rules:entered-after-creation")
 
     def run_body(steps, depth):
         for st_ in steps:
@@ -295,7 +313,7 @@ def check_reset(case, res: Res) -> None:
 
     exc = make_exc(case["exc"])
     try:
-        with md.reset_rules():
+        with (guard if guard is not None else md.reset_rules()):
             run_body(case["body"], 1)
             if case["exit"] == "raise":
                 raise exc
